@@ -64,6 +64,19 @@ func c17AddForeign(r *vu.Rng, c *vsCluster) (typed []client.Object, names []stri
 				Rules: []gatewayv1.HTTPRouteRule{{BackendRefs: []gatewayv1.HTTPBackendRef{{BackendRef: vsBackendObj(vsBackend{Name: "svc-a", Port: 80, Weight: 1})}}}}}})
 		names = append(names, "HTTPRoute/default/mesh")
 	}
+	// a Route with two parentRefs to one foreign parent and section that differ only in the port (admitted by the
+	// Gateway API), and a policy that targets only that Route
+	typed = append(typed, &gatewayv1.HTTPRoute{ObjectMeta: metav1.ObjectMeta{Namespace: "default", Name: "fdup", Generation: 1},
+		Spec: gatewayv1.HTTPRouteSpec{CommonRouteSpec: gatewayv1.CommonRouteSpec{ParentRefs: []gatewayv1.ParentReference{
+			{Name: "fgw", SectionName: helpers.GetPointer[gatewayv1.SectionName]("l0"), Port: helpers.GetPointer[gatewayv1.PortNumber](80)},
+			{Name: "fgw", SectionName: helpers.GetPointer[gatewayv1.SectionName]("l0"), Port: helpers.GetPointer[gatewayv1.PortNumber](8080)}}},
+			Rules: []gatewayv1.HTTPRouteRule{{BackendRefs: []gatewayv1.HTTPBackendRef{{BackendRef: vsBackendObj(vsBackend{Name: "svc-a", Port: 80, Weight: 1})}}}}}})
+	names = append(names, "HTTPRoute/default/fdup")
+	typed = append(typed, &ngfAPIv1alpha1.ClientSettingsPolicy{ObjectMeta: metav1.ObjectMeta{Namespace: "default", Name: "fcsp2", Generation: 1},
+		Spec: ngfAPIv1alpha1.ClientSettingsPolicySpec{
+			TargetRef: v1alpha2.LocalPolicyTargetReference{Group: gatewayv1.GroupName, Kind: "HTTPRoute", Name: "fdup"},
+			Body:      &ngfAPIv1alpha1.ClientBody{MaxSize: helpers.GetPointer(ngfAPIv1alpha1.Size("1m"))}}})
+	names = append(names, "ClientSettingsPolicy/default/fcsp2")
 	// a policy that targets the foreign gateway
 	typed = append(typed, &ngfAPIv1alpha1.ClientSettingsPolicy{ObjectMeta: metav1.ObjectMeta{Namespace: "default", Name: "fcsp", Generation: 1},
 		Spec: ngfAPIv1alpha1.ClientSettingsPolicySpec{
